@@ -1053,6 +1053,10 @@ class USBDataPacketDeserializer(Elaboratable):
 
                         m.next = "IDLE"
 
+                    # A packet with a bad CRC is dropped; the next packet must start afresh.
+                    with m.Else():
+                        m.next = "IDLE"
+
             # IRRELEVANT -- we've encountered a malformed or non-handshake packet
             with m.State("IRRELEVANT"):
 
